@@ -81,7 +81,7 @@ PLAN = {
         "level": "model_checking",
         "rule": RULE_TRACE + RULE_LATTICE,
         "models": [MC("MC_P3_cmp.cfg", W_CMP), MC("MC_P4_cmp.cfg", W_CMP, "thorough")],
-        "traces": [T("cmp", (120, 15000), (12, 14)), T("lattice_cmp", (128, 14), (8, 14))],
+        "traces": [T("cmp", (120, 15000), (12, 14)), T("lattice_cmp", (128, 14), (8, 14)), T("pow2_sweep", (8, 14), (8, 14))],
         "specgen": [{"gen": "compare", "variant": "std"}],
     },
     "C07": {
